@@ -590,6 +590,108 @@ pub proof fn lemma_opts_step(buf: Seq<u8>, z: int, name: Seq<char>, z1: int, val
     }
 }
 
+// ---- completeness of the decoder: it rejects only what the wire layout cannot denote (C10, C11) -----------------
+/// nothing decodes from the option part behind the NUL at `z`
+pub open spec fn opts_undecodable(buf: Seq<u8>, z: int) -> bool { forall|rest: Seq<TransferOption>| !#[trigger] opts_decode(buf, z, rest) }
+/// the datagram is no RRQ/WRQ body
+pub open spec fn rq_undecodable(buf: Seq<u8>) -> bool {
+    forall|f: Seq<char>, m: Seq<char>, o: Seq<TransferOption>| !#[trigger] rq_decodes(buf, f, m, o)
+}
+/// the datagram denotes no packet at all
+pub open spec fn undecodable(buf: Seq<u8>) -> bool { forall|q: PktV| !#[trigger] decodes_to(buf, q) }
+
+/// if the option part behind one successfully read (name, value) pair cannot be decoded, neither can the part that starts
+/// with the pair (the pair is the only way to read on: first-NUL uniqueness)
+pub proof fn lemma_opts_step_undec(buf: Seq<u8>, z: int, name: Seq<char>, z1: int, val: Seq<char>, z2: int)
+    requires 0 <= z < buf.len() - 1, to_string_ok(buf, z + 1, name, z1), to_string_ok(buf, z1 + 1, val, z2),
+    ensures opts_undecodable(buf, z2) ==> opts_undecodable(buf, z),
+{
+    if opts_undecodable(buf, z2) {
+        assert forall|rest: Seq<TransferOption>| !#[trigger] opts_decode(buf, z, rest) by {
+            if opts_decode(buf, z, rest) {
+                let (n, y1, v, y2) = choose|n: Seq<char>, y1: int, v: Seq<char>, y2: int|
+                    #[trigger] to_string_ok(buf, z + 1, n, y1) && #[trigger] to_string_ok(buf, y1 + 1, v, y2)
+                    && (match option_of_name(str_lower(n)) {
+                        Ok(t) => parse_spec::<usize>(v) is Some && rest.len() > 0
+                            && rest[0] == (TransferOption { option: t, value: parse_spec::<usize>(v)->Some_0 })
+                            && opts_decode(buf, y2, rest.skip(1)),
+                        Err(_) => opts_decode(buf, y2, rest),
+                    });
+                lemma_to_string_unique(buf, z + 1, name, z1, n, y1);
+                lemma_to_string_unique(buf, z1 + 1, val, z2, v, y2);
+                match option_of_name(str_lower(n)) {
+                    Ok(t) => { assert(!opts_decode(buf, z2, rest.skip(1))); }
+                    Err(_) => { assert(!opts_decode(buf, z2, rest)); }
+                }
+            }
+        }
+    }
+}
+/// the three ways an iteration of the option loop fails make the remaining option part undecodable
+pub proof fn lemma_opts_fail_undec(buf: Seq<u8>, z: int)
+    requires 0 <= z < buf.len() - 1,
+    ensures
+        no_string_at(buf, z + 1) ==> opts_undecodable(buf, z),
+        forall|name: Seq<char>, z1: int| #[trigger] to_string_ok(buf, z + 1, name, z1) && no_string_at(buf, z1 + 1) ==> opts_undecodable(buf, z),
+        forall|name: Seq<char>, z1: int, val: Seq<char>, z2: int| #[trigger] to_string_ok(buf, z + 1, name, z1) && #[trigger] to_string_ok(buf, z1 + 1, val, z2)
+            && option_of_name(str_lower(name)) is Ok && parse_spec::<usize>(val) is None ==> opts_undecodable(buf, z),
+{
+    assert forall|name: Seq<char>, z1: int| #[trigger] to_string_ok(buf, z + 1, name, z1) && no_string_at(buf, z1 + 1) implies opts_undecodable(buf, z) by {
+        assert forall|rest: Seq<TransferOption>| !#[trigger] opts_decode(buf, z, rest) by {
+            if opts_decode(buf, z, rest) {
+                let (n, y1, v, y2) = choose|n: Seq<char>, y1: int, v: Seq<char>, y2: int|
+                    #[trigger] to_string_ok(buf, z + 1, n, y1) && #[trigger] to_string_ok(buf, y1 + 1, v, y2);
+                lemma_to_string_unique(buf, z + 1, name, z1, n, y1);
+            }
+        }
+    }
+    assert forall|name: Seq<char>, z1: int, val: Seq<char>, z2: int| #[trigger] to_string_ok(buf, z + 1, name, z1) && #[trigger] to_string_ok(buf, z1 + 1, val, z2)
+            && option_of_name(str_lower(name)) is Ok && parse_spec::<usize>(val) is None implies opts_undecodable(buf, z) by {
+        assert forall|rest: Seq<TransferOption>| !#[trigger] opts_decode(buf, z, rest) by {
+            if opts_decode(buf, z, rest) {
+                let (n, y1, v, y2) = choose|n: Seq<char>, y1: int, v: Seq<char>, y2: int|
+                    #[trigger] to_string_ok(buf, z + 1, n, y1) && #[trigger] to_string_ok(buf, y1 + 1, v, y2)
+                    && (match option_of_name(str_lower(n)) {
+                        Ok(t) => parse_spec::<usize>(v) is Some,
+                        Err(_) => true,
+                    });
+                lemma_to_string_unique(buf, z + 1, name, z1, n, y1);
+                lemma_to_string_unique(buf, z1 + 1, val, z2, v, y2);
+            }
+        }
+    }
+}
+/// once file name and mode have been read, an undecodable option part makes the whole request undecodable
+pub proof fn lemma_rq_undec(buf: Seq<u8>, f: Seq<char>, zf: int, m: Seq<char>, zm: int)
+    requires to_string_ok(buf, 2, f, zf), to_string_ok(buf, zf + 1, m, zm),
+    ensures opts_undecodable(buf, zm) ==> rq_undecodable(buf),
+{
+    if opts_undecodable(buf, zm) {
+        assert forall|f2: Seq<char>, m2: Seq<char>, o2: Seq<TransferOption>| !#[trigger] rq_decodes(buf, f2, m2, o2) by {
+            if rq_decodes(buf, f2, m2, o2) {
+                let (y1, y2) = choose|y1: int, y2: int| #[trigger] to_string_ok(buf, 2, f2, y1) && #[trigger] to_string_ok(buf, y1 + 1, m2, y2) && opts_decode(buf, y2, o2);
+                lemma_to_string_unique(buf, 2, f, zf, f2, y1);
+                lemma_to_string_unique(buf, zf + 1, m, zm, m2, y2);
+            }
+        }
+    }
+}
+/// failing to read the file name or the mode
+pub proof fn lemma_rq_head_undec(buf: Seq<u8>)
+    ensures
+        no_string_at(buf, 2) ==> rq_undecodable(buf),
+        forall|f: Seq<char>, zf: int| #[trigger] to_string_ok(buf, 2, f, zf) && no_string_at(buf, zf + 1) ==> rq_undecodable(buf),
+{
+    assert forall|f: Seq<char>, zf: int| #[trigger] to_string_ok(buf, 2, f, zf) && no_string_at(buf, zf + 1) implies rq_undecodable(buf) by {
+        assert forall|f2: Seq<char>, m2: Seq<char>, o2: Seq<TransferOption>| !#[trigger] rq_decodes(buf, f2, m2, o2) by {
+            if rq_decodes(buf, f2, m2, o2) {
+                let (y1, y2) = choose|y1: int, y2: int| #[trigger] to_string_ok(buf, 2, f2, y1) && #[trigger] to_string_ok(buf, y1 + 1, m2, y2) && opts_decode(buf, y2, o2);
+                lemma_to_string_unique(buf, 2, f, zf, f2, y1);
+            }
+        }
+    }
+}
+
 /// decimal text of a number (uninterpreted; `usize::to_string`)
 pub uninterp spec fn dec_str(n: usize) -> Seq<char>;
 
@@ -802,6 +904,171 @@ pub proof fn lemma_rq_roundtrip(buf: Seq<u8>, op: u8, f: Seq<char>, m: Seq<char>
     lemma_string_at(buf, b, m, m2, z2);
     assert(buf.subrange(z2 + 1, buf.len() as int) =~= enc_opts(o));
     lemma_opts_roundtrip(buf, z2, o, o2);
+}
+
+/// an encoded NUL-free string followed by NUL at `start` is found there by `Convert::to_string`
+pub proof fn lemma_string_here(buf: Seq<u8>, start: int, s: Seq<char>)
+    requires
+        0 <= start, start + utf8_encode(s).len() < buf.len(),
+        buf.subrange(start, start + utf8_encode(s).len()) == utf8_encode(s),
+        buf[start + utf8_encode(s).len()] == 0,
+        nul_free(utf8_encode(s)),
+    ensures to_string_ok(buf, start, s, start + utf8_encode(s).len()),
+{
+    let e = utf8_encode(s);
+    let i = start + e.len();
+    vstd::utf8::encode_utf8_decode_utf8(s);
+    vstd::utf8::encode_utf8_valid_utf8(s);
+    assert forall|j: int| start <= j < i implies buf[j] != 0 by {
+        assert(buf[j] == buf.subrange(start, i)[j - start]);
+        assert(e[j - start] != 0);
+    }
+}
+
+/// existence: the encoded option list decodes to itself
+pub proof fn lemma_opts_enc_decodes(buf: Seq<u8>, z: int, o: Seq<TransferOption>)
+    requires 0 <= z < buf.len(), buf.subrange(z + 1, buf.len() as int) == enc_opts(o),
+    ensures opts_decode(buf, z, o),
+    decreases o.len(),
+{
+    if o.len() == 0 {
+        assert(buf.len() == z + 1);
+    } else {
+        lemma_enc_opts_front(o);
+        lemma_option_names();
+        let t = o[0].option;
+        let v = o[0].value;
+        lemma_dec_str_nul_free(v);
+        axiom_dec_str(v);
+        let en = utf8_encode(option_name(t));
+        let ev = utf8_encode(dec_str(v));
+        let rest = enc_opts(o.skip(1));
+        let tail = buf.subrange(z + 1, buf.len() as int);
+        assert(tail == en + seq![0u8] + ev + seq![0u8] + rest);
+        assert(tail.len() == en.len() + 1 + ev.len() + 1 + rest.len());
+        let a = z + 1;
+        let b = a + en.len() + 1;
+        assert(buf.subrange(a, a + en.len()) =~= en) by {
+            assert forall|j: int| 0 <= j < en.len() implies buf[a + j] == en[j] by { assert(buf[a + j] == tail[j]); }
+        }
+        assert(buf[a + en.len()] == 0) by { assert(buf[a + en.len()] == tail[en.len() as int]); }
+        assert(buf.subrange(b, b + ev.len()) =~= ev) by {
+            assert forall|j: int| 0 <= j < ev.len() implies buf[b + j] == ev[j] by { assert(buf[b + j] == tail[en.len() + 1 + j]); }
+        }
+        assert(buf[b + ev.len()] == 0) by { assert(buf[b + ev.len()] == tail[(en.len() + 1 + ev.len()) as int]); }
+        let z1 = a + en.len();
+        let z2 = b + ev.len();
+        lemma_string_here(buf, a, option_name(t));
+        lemma_string_here(buf, b, dec_str(v));
+        assert(buf.subrange(z2 + 1, buf.len() as int) =~= rest) by {
+            assert forall|j: int| 0 <= j < rest.len() implies buf[z2 + 1 + j] == rest[j] by { assert(buf[z2 + 1 + j] == tail[en.len() + 1 + ev.len() + 1 + j]); }
+        }
+        lemma_opts_enc_decodes(buf, z2, o.skip(1));
+        assert(to_string_ok(buf, z + 1, option_name(t), z1) && to_string_ok(buf, z1 + 1, dec_str(v), z2));
+        assert(o[0] == (TransferOption { option: t, value: parse_spec::<usize>(dec_str(v))->Some_0 }));
+    }
+}
+
+/// SPECIFICATION (C11): the encoding of a packet (strings without NUL) denotes that packet - so the decoder, which rejects
+/// only what denotes no packet, accepts it
+pub proof fn lemma_enc_decodes(p: PktV)
+    requires strings_nul_free(p),
+    ensures decodes_to(enc(p), p),
+{
+    let buf = enc(p);
+    match p {
+        PktV::Rrq { filename, mode, options } => {
+            assert(buf[0] == 0 && buf[1] == 1);
+            lemma_rq_enc_decodes(buf, 1, filename, mode, options);
+        }
+        PktV::Wrq { filename, mode, options } => {
+            assert(buf[0] == 0 && buf[1] == 2);
+            lemma_rq_enc_decodes(buf, 2, filename, mode, options);
+        }
+        PktV::Data { block_num, data } => {
+            assert(buf[0] == 0 && buf[1] == 3 && buf[2] == (block_num / 256) as u8 && buf[3] == (block_num % 256) as u8);
+            assert(buf.subrange(4, buf.len() as int) =~= data);
+        }
+        PktV::Ack(n) => {
+            assert(buf[0] == 0 && buf[1] == 4 && buf[2] == (n / 256) as u8 && buf[3] == (n % 256) as u8);
+        }
+        PktV::Error { code, msg } => {
+            let c = errcode_num(code);
+            let em = utf8_encode(msg);
+            assert(buf[0] == 0 && buf[1] == 5 && buf[2] == 0 && buf[3] == c as u8);
+            assert(buf.len() == 4 + em.len() + 1);
+            assert(buf.subrange(4, 4 + em.len() as int) =~= em);
+            assert(buf[4 + em.len() as int] == 0);
+            lemma_string_here(buf, 4, msg);
+        }
+        PktV::Oack(options) => {
+            assert(buf[0] == 0 && buf[1] == 6);
+            assert(buf.subrange(2, buf.len() as int) =~= enc_opts(options));
+            lemma_opts_enc_decodes(buf, 1, options);
+        }
+    }
+}
+pub proof fn lemma_rq_enc_decodes(buf: Seq<u8>, op: u8, f: Seq<char>, m: Seq<char>, o: Seq<TransferOption>)
+    requires
+        buf == seq![0u8, op] + utf8_encode(f) + seq![0u8] + utf8_encode(m) + seq![0u8] + enc_opts(o),
+        nul_free(utf8_encode(f)), nul_free(utf8_encode(m)),
+    ensures rq_decodes(buf, f, m, o),
+{
+    let ef = utf8_encode(f);
+    let em = utf8_encode(m);
+    assert(buf.len() == 2 + ef.len() + 1 + em.len() + 1 + enc_opts(o).len());
+    assert(buf.subrange(2, 2 + ef.len() as int) =~= ef);
+    assert(buf[2 + ef.len() as int] == 0);
+    lemma_string_here(buf, 2, f);
+    let z1: int = 2 + ef.len() as int;
+    let b: int = z1 + 1;
+    assert(buf.subrange(b, b + em.len() as int) =~= em);
+    assert(buf[b + em.len() as int] == 0);
+    lemma_string_here(buf, b, m);
+    let z2: int = b + em.len() as int;
+    assert(buf.subrange(z2 + 1, buf.len() as int) =~= enc_opts(o));
+    lemma_opts_enc_decodes(buf, z2, o);
+    assert(to_string_ok(buf, 2, f, z1) && to_string_ok(buf, z1 + 1, m, z2) && opts_decode(buf, z2, o));
+}
+
+/// a string read by `Convert::to_string` re-encodes to the bytes it was read from, which contain no NUL
+pub proof fn lemma_read_string_nul_free(buf: Seq<u8>, start: int, s: Seq<char>, i: int)
+    requires 0 <= start, to_string_ok(buf, start, s, i),
+    ensures nul_free(utf8_encode(s)),
+{
+    let b = buf.subrange(start, i);
+    vstd::utf8::decode_utf8_encode_utf8(b);
+    assert forall|j: int| 0 <= j < b.len() implies #[trigger] b[j] != 0 by { assert(b[j] == buf[start + j]); }
+}
+/// the strings of a decoded packet contain no NUL
+pub proof fn lemma_decoded_strings_nul_free(buf: Seq<u8>, p: PktV)
+    requires decodes_to(buf, p),
+    ensures strings_nul_free(p),
+{
+    match p {
+        PktV::Rrq { filename, mode, options } => {
+            let (z1, z2) = choose|z1: int, z2: int| #[trigger] to_string_ok(buf, 2, filename, z1) && #[trigger] to_string_ok(buf, z1 + 1, mode, z2) && opts_decode(buf, z2, options);
+            lemma_read_string_nul_free(buf, 2, filename, z1);
+            lemma_read_string_nul_free(buf, z1 + 1, mode, z2);
+        }
+        PktV::Wrq { filename, mode, options } => {
+            let (z1, z2) = choose|z1: int, z2: int| #[trigger] to_string_ok(buf, 2, filename, z1) && #[trigger] to_string_ok(buf, z1 + 1, mode, z2) && opts_decode(buf, z2, options);
+            lemma_read_string_nul_free(buf, 2, filename, z1);
+            lemma_read_string_nul_free(buf, z1 + 1, mode, z2);
+        }
+        PktV::Error { code, msg } => {
+            if exists|i: int| to_string_ok(buf, 4, msg, i) {
+                let i = choose|i: int| to_string_ok(buf, 4, msg, i);
+                lemma_read_string_nul_free(buf, 4, msg, i);
+            } else {
+                reveal_strlit("(no message)");
+                let n = "(no message)"@;
+                assert(vstd::utf8::is_ascii_chars(n));
+                vstd::utf8::is_ascii_chars_encode_utf8(n);
+            }
+        }
+        _ => {}
+    }
 }
 
 /// SPECIFICATION (C11): decoding the encoding of a packet (strings without NUL) can only return the identical packet.
